@@ -213,6 +213,18 @@ CLAIMS["C13"] = (
     "Losslessness of the codecs and q-value arithmetic are not decided.",
 )
 
+CLAIMS["C19"] = (
+    "4/C19",
+    "wire-integer taint + guarded-site analysis over rustc's Assert(Overflow) terminators in built MIR; reasoned exception table; linear accounting of the unsafe header writer",
+    "Decides, for the peer-facing parsing code: every overflow-checked subtraction is safe on every path by one of the "
+    "code base's idioms (dominating comparison of the same operands, min-clamp, non-zero test before `- 1`, byte-range "
+    "arm) or by an entry of a small reasoned table with exact keys; additions/multiplications/shifts and narrowing casts "
+    "on wire-derived integers are guarded or listed; the unsafe header writer advances pointer, cursor and remaining "
+    "capacity by the same sum it wrote and re-derives the pointer after reserve (found and fixed through this rule "
+    "family: the zero-length range underflow). Slice bounds of the look-ahead scanners, unwraps on peer-derived options "
+    "and loop termination are NOT decided.",
+)
+
 NOT_YET = "check not built yet in this round (planned per DESIGN.md section 4); not claimed until it exists"
 
 NOT_APPLICABLE = {}
